@@ -656,12 +656,14 @@ type pickResult struct {
 	seq      []wm // (move, weight) at the time of each yield
 	final    []wm // YieldedMoves() after exhaustion: what FailHigh would be handed
 	panicked bool
+	panicMsg string // the recovered panic value; len(seq) is the number of yields before it
 }
 
 func runPicker(b *board.Board, hm move.Move, ms *move.Store, mr *heur.MoveRanker, hs *stack.Stack[heur.StackMove]) (res pickResult) {
 	defer func() {
 		if r := recover(); r != nil {
 			res.panicked = true
+			res.panicMsg = fmt.Sprint(r)
 		}
 	}()
 	ms.Clear()
@@ -682,20 +684,53 @@ func (e *env) c16() {
 	n := e.c.Pick(600, 30000)
 	nRandom := e.c.Pick(200, 30)
 	rng := e.c.Rng
-	e.r.Rule = "valid positions (the shared stream plus, evenly interleaved, 700 (quick) / 12000 (thorough) stage-poor positions of posgen.StagePoor: exactly 0..5, mostly 0..2, quiet and noisy moves for either colour - locked pawn rams with and without mutual capture pairs, boxed kings, sparse boards, king+rook at home with the castling set, undefended / pawn-defended victims, en-passant pairs; histogram class[...] / run[...] = how many positions / runs have a stage of size <= 2 and what the hash move leaves in its stage; these get 24 / 8 random encodings) x {no hash move, every generated move, 200 (quick) / 30 (thorough) random 15-bit encodings (foreign moves of other positions, promotion flags on non-promotions, from-squares without an own man, near misses of generated moves)} x history states driven through the exported API (NewMoveRanker/FailHigh/RankNoisy/RankQuiet, stack.Stack) by random FailHigh scripts and by saturating ones (>= 5000 identical updates with extreme depths to the same cells); the sequence (move, weight) yielded by the real picker.Picker (and for every 8th run exhaustion + the final YieldedMoves() buffer) vs the Lean picker model whose ranker replays the same script; checked in Go directly: yielded multiset = generated pseudo-legal moves, no duplicates, hash move first iff IsPseudoLegal, every noisy weight inside the good/bad capture band and every quiet weight within +-3*MaxHistory; evaluations = picker runs; non-trivial = run whose hash move is pseudo-legal (stage 1 + sentinel path) or whose position has both good and bad captures, distinct by (FEN, hash move, history script number)"
+	e.r.Rule = "valid positions (the shared stream plus, evenly interleaved, 700 (quick) / 12000 (thorough) stage-poor positions of posgen.StagePoor: exactly 0..5, mostly 0..2, quiet and noisy moves for either colour - locked pawn rams with and without mutual capture pairs, boxed kings, sparse boards, king+rook at home with the castling set, undefended / pawn-defended victims, en-passant pairs; histogram class[...] / run[...] = how many positions / runs have a stage of size <= 2 and what the hash move leaves in its stage; these get 24 / 8 random encodings; and 150 (quick) / 3000 (thorough) stage-rich positions of posgen.StageRich: 100..218 pseudo-legal moves for either colour within the promotion bound - exact totals 127/128/129, a quiet stage of 127/128/129 entries, a noisy stage of 63/64/65 and of >= 70 entries (captures + promotions), spread 100..190, perturbations of the 218-move positions; histogram class[...]:moves=.. / total>=128 / noisy>=64 / quiet>=64 / quiet>=128; for these only a sample of generated moves is tried as hash move: first and last entry of each stage, 8 random ones, and 12 random encodings) x {no hash move, every generated move, 200 (quick) / 30 (thorough) random 15-bit encodings (foreign moves of other positions, promotion flags on non-promotions, from-squares without an own man, near misses of generated moves)} x history states driven through the exported API (NewMoveRanker/FailHigh/RankNoisy/RankQuiet, stack.Stack) by random FailHigh scripts and by saturating ones (>= 5000 identical updates with extreme depths to the same cells); the sequence (move, weight) yielded by the real picker.Picker (and for every 8th run exhaustion + the final YieldedMoves() buffer) vs the Lean picker model whose ranker replays the same script; checked in Go directly: yielded multiset = generated pseudo-legal moves, no duplicates, hash move first iff IsPseudoLegal, every noisy weight inside the good/bad capture band and every quiet weight within +-3*MaxHistory; evaluations = picker runs; non-trivial = run whose hash move is pseudo-legal (stage 1 + sentinel path) or whose position has both good and bad captures, distinct by (FEN, hash move, history script number)"
 	// positions whose stages are degenerate (0/1/2 quiet moves, 0/1/2 noisy moves): spread evenly between
 	// the positions of the shared stream so that they meet every kind of history state
 	nPoor := e.c.Pick(700, 12000)
 	nRandomPoor := e.c.Pick(24, 8)
+	// positions at the other extreme (100..218 pseudo-legal moves, totals 127/128/129, a quiet stage that
+	// alone crosses 128 entries, a noisy stage that alone crosses 64): only a sample of the generated moves
+	// is tried as hash move there (first / last of each stage, 8 random ones) plus 12 random encodings
+	nRich := e.c.Pick(150, 3000)
+	nRandomRich := 12
+	total := n + nPoor + nRich
+	sched := make([]byte, total) // 0 stream, 1 stage-poor, 2 stage-rich
+	for k := 0; k < nPoor; k++ {
+		sched[k*total/nPoor] = 1
+	}
+	for k := 0; k < nRich; k++ {
+		j := k * total / nRich
+		for sched[j%total] != 0 {
+			j++
+		}
+		sched[j%total] = 2
+	}
 	mr := heur.NewMoveRanker()
 	ms := move.NewStore()
 	script := 0
-	poorSeen := 0
-	for i := 0; i < n+nPoor; i++ {
+	poorSeen, richSeen := 0, 0
+	for i := 0; i < total; i++ {
 		var fen, src string
 		nRnd := nRandom
 		wantQ, wantN := -1, -1
-		if i*nPoor/(n+nPoor) != (i+1)*nPoor/(n+nPoor) {
+		var richTg *posgen.RichTarget
+		if sched[i] == 2 {
+			if richSeen < len(posgen.StageRichCorpus) {
+				fen, src = posgen.StageRichCorpus[richSeen], "stagerich-corpus"
+			} else {
+				for {
+					if p, tg, ok := posgen.StageRich(rng); ok {
+						fen, src = p.FEN(), "stagerich-"+tg.Mode
+						richTg = &tg
+						break
+					}
+					e.r.Count("stagerich-draw-failed", 1)
+				}
+			}
+			richSeen++
+			nRnd = nRandomRich
+		} else if sched[i] == 1 {
 			if poorSeen < len(posgen.StagePoorCorpus) {
 				fen, src = posgen.StagePoorCorpus[poorSeen], "stagepoor-corpus"
 			} else {
@@ -717,6 +752,9 @@ func (e *env) c16() {
 		if strings.HasPrefix(src, "stagepoor") {
 			grp = "stagepoor"
 		}
+		if strings.HasPrefix(src, "stagerich") {
+			grp = "stagerich"
+		}
 		b, valid := e.load("C16", fen)
 		if b == nil || !valid {
 			e.r.Count("skipped-invalid:"+src, 1)
@@ -731,6 +769,53 @@ func (e *env) c16() {
 			} else {
 				e.r.Count("stagepoor-target-missed", 1)
 			}
+		}
+		if richTg != nil {
+			if richTg.Miss(len(quiet), len(noisy)) == 0 {
+				e.r.Count("stagerich-target-reached", 1)
+			} else {
+				e.r.Count("stagerich-target-missed", 1)
+			}
+		}
+		// move-count classes (all sources): the byte boundary of the total, long single stages
+		if nAll := len(noisy) + len(quiet); nAll >= 100 || grp == "stagerich" {
+			bucket := "200..218"
+			switch {
+			case nAll < 100:
+				bucket = "<100"
+			case nAll < 120:
+				bucket = "100..119"
+			case nAll < 127:
+				bucket = "120..126"
+			case nAll <= 129:
+				bucket = strconv.Itoa(nAll)
+			case nAll < 160:
+				bucket = "130..159"
+			case nAll < 200:
+				bucket = "160..199"
+			}
+			e.r.Count(fmt.Sprintf("class[%s]:moves=%s", grp, bucket), 1)
+			if nAll >= 128 {
+				e.r.Count(fmt.Sprintf("class[%s]:total>=128", grp), 1)
+			}
+		}
+		if len(noisy) >= 64 {
+			e.r.Count(fmt.Sprintf("class[%s]:noisy>=64", grp), 1)
+			if len(noisy)+len(quiet) >= 128 {
+				e.r.Count(fmt.Sprintf("class[%s]:noisy>=64,total>=128", grp), 1)
+			}
+		}
+		if len(quiet) >= 64 {
+			e.r.Count(fmt.Sprintf("class[%s]:quiet>=64", grp), 1)
+		}
+		if len(quiet) >= 128 {
+			e.r.Count(fmt.Sprintf("class[%s]:quiet>=128", grp), 1)
+		}
+		if len(quiet) >= 127 && len(quiet) <= 129 {
+			e.r.Count(fmt.Sprintf("class[%s]:quiet=%d", grp, len(quiet)), 1)
+		}
+		if len(noisy) >= 63 && len(noisy) <= 65 {
+			e.r.Count(fmt.Sprintf("class[%s]:noisy=%d", grp, len(noisy)), 1)
 		}
 		all := append(append([]move.Move{}, noisy...), quiet...)
 		gen := map[move.Move]bool{}
@@ -866,7 +951,21 @@ func (e *env) c16() {
 		}
 		// hash move candidates
 		hms := []move.Move{0}
-		hms = append(hms, all...)
+		if grp == "stagerich" && len(all) > 0 {
+			// a sample: the first and last entry of each stage's frame, 8 random generated moves
+			hms = append(hms, all[0], all[len(all)-1])
+			if len(noisy) > 0 {
+				hms = append(hms, noisy[len(noisy)-1])
+			}
+			if len(quiet) > 0 {
+				hms = append(hms, quiet[0])
+			}
+			for k := 0; k < 8; k++ {
+				hms = append(hms, all[rng.IntN(len(all))])
+			}
+		} else {
+			hms = append(hms, all...)
+		}
 		for k := 0; k < nRnd; k++ {
 			var hm move.Move
 			switch rng.IntN(6) {
@@ -958,7 +1057,7 @@ func (e *env) c16() {
 				}
 			}
 			if res.panicked {
-				bad = "picker panicked"
+				bad = fmt.Sprintf("picker panicked after %d yields (of %d generated moves): %s", len(res.seq), len(all), res.panicMsg)
 			}
 			if st := stageOf[hm]; ipl && st != 0 {
 				// what is left in the hash move's own stage once it is out
